@@ -19,7 +19,7 @@ func init() {
 	monitors["C02"] = &monitor{scenarios: c02Scenarios, run: c02Run}
 }
 
-var c02Contexts = []string{"body", "action", "invariant", "custom-inner", "custom-outer", "cleanup-body", "cleanup-action", "cleanup-custom", "goroutine"}
+var c02Contexts = []string{"body", "action", "invariant", "custom-inner", "custom-outer", "cleanup-body", "cleanup-action", "cleanup-custom", "goroutine", "cleanup-nested", "cleanup-nested-custom"}
 var c02Positions = []string{"first", "middle", "last", "after-skips", "late-step"}
 var c02Variants = []string{"plain", "then-skip", "then-invalid-draw", "skip-in-cleanup", "skip-in-later-cleanup", "skip-in-earlier-cleanup", "deferred-skip", "body-skip"}
 
@@ -169,6 +169,29 @@ func c02Body(sp *c02Spec) func(x *X) {
 			if fire && sp.variant == "body-skip" {
 				x.skip("the body skips, its cleanup will fail")
 			}
+		case "cleanup-nested":
+			// a cleanup function that registers another one during the cleanup phase: that one signals
+			x.t.Cleanup(func() {
+				x.t.Cleanup(func() {
+					if fire {
+						signal(x.t, "body/cleanup")
+					}
+				})
+			})
+			x.draw(rapid.IntRange(0, 100).AsAny(), "v")
+		case "cleanup-nested-custom":
+			g := rapid.Custom(func(t *rapid.T) int {
+				v := rapid.IntRange(0, 100).Draw(t, "cv")
+				t.Cleanup(func() {
+					t.Cleanup(func() {
+						if fire {
+							signal(t, "custom/cleanup")
+						}
+					})
+				})
+				return v
+			})
+			g.Draw(x.t, "c")
 		case "goroutine":
 			x.draw(rapid.IntRange(0, 100).AsAny(), "v")
 			if fire {
